@@ -291,13 +291,14 @@ pub fn def(tier: Tier) -> CheckDef {
         assumptions: vec!["contexts are built from the parsed (fully annotated) prefix, which is what the checker pushes for explicit programs"],
         idle_limit_s: 60,
         needs_cli: false,
+        fuzz: None,
         parts: vec![Part {
             name: "contexts",
             rounds,
             run: Box::new(|ctx, r| ctx.prop("contexts", r, 400, 800, context_case)),
             replay: Some(Box::new(|ctx, inp| match inp {
                 ReplayInput::Choices(c) => context_case(ctx, &mut Ch::new(c)),
-                ReplayInput::Text(_) => Err(Failure::new("this part replays from choices", "")),
+                _ => Err(Failure::new("this part replays from choices", "")),
             })),
         }],
     }
